@@ -187,11 +187,11 @@ def gen(rng, tier):
     for _ in range(500 if tier == "quick" else 12000):
         cases.append(K.rand_script_program(rng, rng.randrange(1, 6), rng.randrange(2, 16), cancellers=False))
     # how a failure is handed to errback must not matter (bare errback() inside an except block, errback(None), ...)
-    cases += K.with_errback_forms(cases, rng, 0.15 if tier == "quick" else 0.08)
+    cases += K.with_errback_forms(cases, rng, 0.08 if tier == "quick" else 0.05)
     # Deferred debugging switched on / off in the middle of a program must not change anything observable
-    cases += K.with_debug_flips(cases, rng, 0.08 if tier == "quick" else 0.04)
+    cases += K.with_debug_flips(cases, rng, 0.05 if tier == "quick" else 0.03)
     # the exact type of a Deferred must not matter: a sample once more with trivial-subclass instances
-    cases += K.with_subclasses(cases, rng, 0.10 if tier == "quick" else 0.05)
+    cases += K.with_subclasses(cases, rng, 0.06 if tier == "quick" else 0.04)
     # Deferred debugging must not change anything observable
     cases += K.with_debug(cases, rng, 0.08 if tier == "quick" else 0.04)
     return cases
